@@ -125,11 +125,16 @@ func c12generic(run *vlab.Run, dir string, c c12case) (obs c12obs) {
 		}()
 	}
 	var retT time.Time
+	var inflightAtReturn int32
 	dump, finished, parked := run.Watch(40*time.Second, "v-byte-cpu/sx/", func() {
 		_ = startScanEngine(ctx, g.spy, g.conf)
+		inflightAtReturn = atomic.LoadInt32(&g.out.inflight)
 		retT = time.Now()
 	})
 	run.Eval(1)
+	if finished && inflightAtReturn != 0 {
+		run.Violation("returned-while-a-record-was-being-written:"+c.Kind, fmt.Sprintf("startScanEngine returned after cancellation while %d write(s) of a record were still in progress: the process exits next and leaves that record cut short: %+v", inflightAtReturn, c), c)
+	}
 	if !finished {
 		if parked {
 			run.Violation("cancel-deadlock:"+c.Kind, fmt.Sprintf("startScanEngine did not return after cancellation; all sx goroutines parked: %+v", c), map[string]interface{}{"case": c, "stacks": dump})
@@ -261,11 +266,16 @@ func c12packet(run *vlab.Run, c c12case) (obs c12obs) {
 	}
 	conf := newEngineConfig(withLogger(logger), withScanRange(&scan.Range{}), withExitDelay(time.Duration(c.ExitDelayMs)*time.Millisecond))
 	var retT time.Time
+	var inflightAtReturn int32
 	dump, finished, parked := run.Watch(40*time.Second, "v-byte-cpu/sx/", func() {
 		_ = startScanEngine(ctx, spy, conf)
+		inflightAtReturn = atomic.LoadInt32(&out.inflight)
 		retT = time.Now()
 	})
 	run.Eval(1)
+	if finished && inflightAtReturn != 0 {
+		run.Violation("returned-while-a-record-was-being-written:"+c.Kind, fmt.Sprintf("startScanEngine (packet engine) returned after cancellation while %d write(s) of a record were still in progress: %+v", inflightAtReturn, c), c)
+	}
 	rw.closeRead() // the program closes the socket after the scan call returns
 	if !finished {
 		if parked {
